@@ -81,6 +81,9 @@ pub fn run_ops(ctx: &mut Ctx) {
             let info = match r { Ok(i) => i, Err(e) => { ctx.fail("C10", "setop-error", format!("{op} failed: {e} (case {case_no})"), replay.clone()); continue; } };
             let (canon, sorted) = canonical_bytes(&out, &info);
             if !sorted { ctx.fail("C10", "chunk-table-unsorted", format!("{op}: chunk table not sorted (case {case_no})"), replay.clone()); }
+            // the result's chunk lookup table has one row per chunk entry of its xorb records (when it has a chunk table at all)
+            { let (_, co_rows) = records(&out); let n_chunks: usize = co_rows.values().map(|c| c.chunks.len()).sum();
+              if info.metadata.chunk_lookup_num_entry != 0 && info.metadata.chunk_lookup_num_entry as usize != n_chunks { ctx.fail("C10", "chunk-table-row-count", format!("{op}: the chunk lookup table has {} rows for {n_chunks} chunk entries (case {case_no})", info.metadata.chunk_lookup_num_entry), replay.clone()); } }
             ctx.op(&format!("shardop.set op={op} a={ao}:{al} b={bo}:{bl}"), &format!("len={} fnv={} {}", out.len(), fnv(&canon), footer_str(&info)));
             // ---- record-set algebra monitors
             let (fo, co) = records(&out);
@@ -111,6 +114,45 @@ pub fn run_ops(ctx: &mut Ctx) {
         }
         ctx.stat(&format!("pair_{}", ["disjoint", "identical", "empty", "overlap", "overlap", "overlap"][kind as usize]));
         ctx.case(fnv(&ba) ^ fnv(&bb), a.cas.len() + a.files.len() + b.cas.len() + b.files.len() >= 2);
+    }
+
+    // ---- file-level operations, also IN PLACE (the output path is one of the inputs: accumulate into / subtract from a shard)
+    {
+        let tmp = PathBuf::from(std::env::var("TMPDIR").unwrap_or("/verif/run/tmp".into())).join(format!("shardfileops-{}-{}", std::process::id(), ctx.seed));
+        for r in 0..(if ctx.quick() { 12 } else { 100 }) {
+            let mut rng = ctx.rng.fork(70_000 + r);
+            let _ = std::fs::remove_dir_all(&tmp); std::fs::create_dir_all(&tmp).unwrap();
+            let a = { let (n1, n2) = (rng.range(1, 8) as usize, rng.range(1, 8) as usize); gen_content(&mut rng, n1, n2, 0, false) };
+            let kind = rng.below(4);
+            let b = related(&mut rng, &a, kind);
+            let (_, ba, _) = build(&a); let (_, bb, _) = build(&b);
+            let (pa, pb, pc) = (tmp.join("a.mdb"), tmp.join("b.mdb"), tmp.join("c.mdb"));
+            std::fs::write(&pa, &ba).unwrap(); std::fs::write(&pb, &bb).unwrap();
+            let (fa, ca) = records(&ba); let (fb, cb) = records(&bb);
+            let union = rng.chance(2, 3);
+            let out = match rng.below(3) { 0 => pc.clone(), 1 => pa.clone(), _ => pb.clone() };
+            let res = if union { mdb_shard::set_operations::shard_file_union(&pa, &pb, &out) } else { mdb_shard::set_operations::shard_file_difference(&pa, &pb, &out) };
+            let replay = format!("{{\"suite\":\"shard_ops\",\"seed\":{},\"file_op_round\":{r},\"union\":{union},\"out\":\"{}\"}}", ctx.seed, out.file_name().unwrap().to_string_lossy());
+            let what = format!("shard_file_{}(a, b, out = {})", if union { "union" } else { "difference" }, out.file_name().unwrap().to_string_lossy());
+            match res {
+                Err(e) => ctx.fail("C10", "file-setop-error", format!("{what} failed: {e} (round {r})"), replay),
+                Ok(_) => {
+                    let ob = std::fs::read(&out).unwrap_or_default();
+                    let parsed = MDBShardInfo::load_from_reader(&mut Cursor::new(&ob)).is_ok();
+                    if !parsed { ctx.fail("C10", "file-setop-output-unreadable", format!("{what}: the output is not a readable shard (round {r})"), replay); }
+                    else {
+                        let (fo, co) = records(&ob);
+                        let want_f: BTreeSet<MerkleHash> = if union { fa.keys().chain(fb.keys()).copied().collect() } else { fb.keys().filter(|k| !fa.contains_key(*k)).copied().collect() };
+                        let want_c: BTreeSet<MerkleHash> = if union { ca.keys().chain(cb.keys()).copied().collect() } else { cb.keys().filter(|k| !ca.contains_key(*k)).copied().collect() };
+                        if fo.keys().copied().collect::<BTreeSet<_>>() != want_f || co.keys().copied().collect::<BTreeSet<_>>() != want_c {
+                            ctx.fail("C10", "file-setop-record-set", format!("{what}: the output's record keys are not those of the {} (round {r})", if union { "union" } else { "difference" }), replay);
+                        }
+                    }
+                }
+            }
+            ctx.stat(&format!("file_setop_out_{}", if out == pc { "third" } else { "in_place" }));
+        }
+        let _ = std::fs::remove_dir_all(&tmp);
     }
 
     // ---- consolidation of session directories
